@@ -80,7 +80,21 @@ def skeleton(f):
         for c in children(n):
             out += rec(c)
         return out
-    return rec(f['body'])
+    def canon(seq):
+        """consecutive state writes are independent of each other: their order is not part of the skeleton"""
+        out, run = [], []
+        for x in seq:
+            if isinstance(x, str) and x.startswith('W:'):
+                run.append(x)
+                continue
+            out += sorted(run)
+            run = []
+            if isinstance(x, tuple):
+                x = tuple(canon(y) if isinstance(y, list) and (not y or not isinstance(y[0], list)) else
+                          ([canon(z) for z in y] if isinstance(y, list) else y) for y in x)
+            out.append(x)
+        return out + sorted(run)
+    return canon(rec(f['body']))
 
 
 def s1_sponge_twins(ck, w):
